@@ -1198,3 +1198,66 @@ func runLoopFull(p *Program, r *RuleResult) {
 		r.add("types+process", "loops-scanned-for-short-bounds", Undecided, "", fmt.Sprintf("only %d loops found", nLoops))
 	}
 }
+
+// R-IDENT-EXACT (C08, C07, C14): identifiers are compared as written.
+func init() {
+	register(&Rule{Name: "R-IDENT-EXACT", Min: 0,
+		Doc: "labels, type names, function names and channel identifiers (string fields of the first-party syntax structs) are never passed through a case- or space-folding function of package strings (EqualFold, ToLower, ToUpper, Title, TrimSpace, Fields, …) in the parser, the type library or the process package: the language distinguishes `ok` from `OK` (the duplicate-label check does), so matching them anywhere else pairs the wrong branches – a type is no longer equal to itself – or identifies different types. The expected count is zero; mode spellings, which are folded on purpose, are plain function arguments, not fields",
+		Run: runIdentExact})
+}
+
+func runIdentExact(p *Program, r *RuleResult) {
+	folding := map[string]bool{"EqualFold": true, "ToLower": true, "ToUpper": true, "ToTitle": true, "Title": true, "TrimSpace": true, "Fields": true, "ToLowerSpecial": true, "ToUpperSpecial": true}
+	n, sites := 0, 0
+	for _, fn := range p.SrcFuncs {
+		pk := fn.Pkg
+		if pk == nil && fn.Parent() != nil {
+			pk = fn.Parent().Pkg
+		}
+		if pk == nil {
+			continue
+		}
+		switch pk.Pkg.Path() {
+		case typesPkg, processPkg, parserPkg:
+		default:
+			continue
+		}
+		ord := 0
+		for _, c := range p.callsIn(fn) {
+			sc := c.Common().StaticCallee()
+			if sc == nil || sc.Pkg == nil || (sc.Pkg.Pkg.Path() != "strings" && sc.Pkg.Pkg.Path() != "bytes" && sc.Pkg.Pkg.Path() != "unicode") || !folding[sc.Name()] {
+				continue
+			}
+			sites++
+			for _, a := range c.Common().Args {
+				ap := accessPath(a)
+				// a string field of a first-party struct, or an element of a parameter
+				// whose type is one of them
+				owner := ""
+				switch x := a.(type) {
+				case *ssa.UnOp:
+					if fa, ok := x.X.(*ssa.FieldAddr); ok {
+						if nt := namedOf(fa.X.Type()); nt != nil && nt.Obj().Pkg() != nil && p.ByPath[nt.Obj().Pkg().Path()] != nil {
+							owner = nt.Obj().Name()
+						}
+					}
+				case *ssa.Field:
+					if nt := namedOf(x.X.Type()); nt != nil && nt.Obj().Pkg() != nil && p.ByPath[nt.Obj().Pkg().Path()] != nil {
+						owner = nt.Obj().Name()
+					}
+				}
+				if owner == "" {
+					continue
+				}
+				n++
+				ord++
+				r.add(fnName(fn), fmt.Sprintf("folded-identifier#%d", ord), Violated, p.instrPos(c),
+					fmt.Sprintf("%s (a field of %s) is passed to %s.%s: identifiers that differ only by case or spacing are treated as the same here, while the rest of the implementation keeps them apart", ap, owner, sc.Pkg.Pkg.Name(), sc.Name()))
+			}
+		}
+	}
+	if n == 0 {
+		r.add("parser, types, process", "identifiers-compared-as-written", Holds, "", fmt.Sprintf("%d call(s) of folding functions, none on an identifier field", sites))
+	}
+	r.count("folding calls on identifier fields", n)
+}
